@@ -221,8 +221,15 @@ def prove(pid, proof_dirs, extra_targets=(), timeout=1500):
 
 
 # ------------------------------------------------------------ build of runners
-def cargo_build(profile="debug", timeout=900):
-    args = ["cargo", "build", "--offline", "--bins"]
+def cargo_build(profile="debug", timeout=900, bins=None):
+    """Build harness binaries from /repo's current tree (hooks on). Pass bins=["name", ...]
+    to build only those (so that somebody else's half-written binary cannot break you)."""
+    args = ["cargo", "build", "--offline"]
+    if bins:
+        for b in bins:
+            args += ["--bin", b]
+    else:
+        args.append("--bins")
     if profile == "release":
         args.append("--release")
     with Lock("cargo"):
@@ -233,6 +240,18 @@ def cargo_build(profile="debug", timeout=900):
 
 def harness_bin(name, profile="debug"):
     return os.path.join(CARGO_TARGET, profile, name)
+
+
+def private_copy(path):
+    """Copy an executable to a private name so that a concurrent rebuild cannot replace it mid-run."""
+    import shutil, tempfile
+    d = os.path.join(BUILD, "priv")
+    os.makedirs(d, exist_ok=True)
+    fd, dst = tempfile.mkstemp(prefix=os.path.basename(path) + ".", dir=d)
+    os.close(fd)
+    shutil.copy2(path, dst)
+    os.chmod(dst, 0o755)
+    return dst
 
 
 def ocaml_build(component, timeout=600):
